@@ -16,7 +16,7 @@ import warnings
 from hypothesis import strategies as st
 
 from .. import fakedul as fd, loopback as lb, svc
-from ..common import Violation, HarnessError, hyp_search, parallel, lib_frame, canon
+from ..common import Violation, HarnessError, hyp_search, parallel, lib_frame, canon, quiet_warnings
 from ..dimsegen import patterned
 
 LEVEL = 'exploration'
@@ -888,7 +888,7 @@ def long_lived_server(program):
 
 
 def shard_baton(ctx, job):
-    warnings.simplefilter('ignore')
+    quiet_warnings()
     strat = st.tuples(st.integers(2, 4), st.integers(0, 5), st.lists(st.integers(0, 4), min_size=1, max_size=40),
                       st.sampled_from([0, 0, 1, 2]))
 
@@ -972,14 +972,14 @@ def _fresh_echo_server():
 
 
 def shard_silent(ctx, job):
-    warnings.simplefilter('ignore')
+    quiet_warnings()
     ctx.case(('silent-connections', job['n']), True, labels=['loopback', 'silent-connections'],
              sample={'silent connections': job['n']})
     ctx.check(silent_connections_case, job['n'])
 
 
 def shard_loopback(ctx, job):
-    warnings.simplefilter('ignore')
+    quiet_warnings()
     for n, seed in job['rounds']:
         case = {'part': 'loopback', 'clients': n, 'seed': seed}
         try:
@@ -996,7 +996,7 @@ def shard_loopback(ctx, job):
 
 
 def run(ctx):
-    warnings.simplefilter('ignore')
+    quiet_warnings()
     ctx.rule = ('part a: N concurrent client threads (own AE title, transfer syntax, maximum PDU length, SOP-class subset, '
                 'instance UIDs and sizes; a third aborting after the first store or inside a half-consumed C-FIND '
                 'generator) against one server entity over loopback TCP, R rounds with permuted start order; part b: '
@@ -1038,7 +1038,7 @@ def run(ctx):
 
 
 def replay(case):
-    warnings.simplefilter('ignore')
+    quiet_warnings()
     if case['part'] == 'loopback':
         try:
             run_round(case['clients'], case['seed'])
